@@ -258,7 +258,9 @@ def run(ctx):
                       "dicts compare equal regardless of key order, so an order-sensitive conversion gives equal records different hashes")
     scopes = [hs]
     for c in calls_in(hs):
-        r = prog.resolve_expr(base, c.func) if isinstance(c.func, ast.Name) else None
+        r = prog.resolve_expr(base, c.func) if isinstance(c.func, (ast.Name, ast.Attribute)) else None
+        if isinstance(r, tuple) and len(r) == 3 and isinstance(r[1], ast.AST):
+            r = prog.resolve_expr(base, r[1]) if isinstance(r[1], (ast.Name, ast.Attribute)) else r
         if isinstance(r, DefRef) and isinstance(r.node, ast.FunctionDef):
             scopes.append(r.node)
     n_conv = 0
@@ -383,10 +385,10 @@ def run(ctx):
 def normaliser_capability(prog, base, hs):
     """Is the value passed to hash() normalised by a function that recurses over list/tuple and dict?"""
     for c in calls_in(hs):
-        r = prog.resolve_expr(base, c.func) if isinstance(c.func, ast.Name) else None
+        r = prog.resolve_expr(base, c.func) if isinstance(c.func, (ast.Name, ast.Attribute)) else None
         if isinstance(r, DefRef) and isinstance(r.node, ast.FunctionDef):
             fn = r.node
-            self_calls = [x for x in calls_in(fn, nested=True) if isinstance(x.func, ast.Name) and x.func.id == fn.name]
+            self_calls = [x for x in calls_in(fn, nested=True) if (isinstance(x.func, ast.Name) and x.func.id == fn.name) or (isinstance(x.func, ast.Attribute) and x.func.attr == fn.name)]
             tests = [norm(x) for x in ast.walk(fn) if isinstance(x, ast.Call) and call_name(x) == "isinstance"]
             handles_list = any("list" in t for t in tests)
             handles_dict = any("dict" in t for t in tests)
